@@ -14,7 +14,10 @@ def cases(tier, seed, prop):
     while len(out) < n:
         s, tops = dom_html.gen_doc(rnd, False, rnd.randint(1, 7))
         if len(s) > 200: continue
-        out.append({'k': 'h', 's': s, 'g': 'htmldoc', 'truth': [dom_html.rec_to_json(t) for t in tops]})
+        tr_ = [dom_html.rec_to_json(t) for t in tops]
+        if rnd.random() < .08:
+            pre_ = '<!--' + 'p' * rnd.randint(260, 300) + '-->'; s = pre_ + s; tr_ = gens.shift(tr_, len(pre_))
+        out.append({'k': 'h', 's': s, 'g': 'htmldoc', 'truth': tr_})
     m = 0
     while m < n:
         s, items = dom_css.gen_sheet(rnd, rnd.randint(1, 7))
@@ -25,6 +28,8 @@ def cases(tier, seed, prop):
             j = s.rfind('}')
             if 0 <= i < j and not s[i + 1:j].strip() and '"' not in s[i:] and "'" not in s[i:]:
                 pass
+        if rnd.random() < .08:
+            pre_ = '/*' + 'p' * rnd.randint(260, 300) + '*/'; s = pre_ + s; items = gens.shift(items, len(pre_))
         out.append({'k': 'c', 's': s, 'g': 'cssdoc', 'truth': items}); m += 1
     for _ in range(n // 2):
         s, items = gen_rule_nosemi(rnd)
